@@ -26,6 +26,7 @@ ASSUMPTIONS = [
     "exponents 26..29 and direct powers of two >= 2^30 are accepted either way (manual: '14-29', 'less than 1 GiB'; property: 14..25, no upper bound)",
     "non-plain-ASCII-decimal strings that int() would accept (sign, whitespace, underscore, Unicode digits) are only required not to escape with a foreign exception or a wrong value",
 ]
+FUZZ_RUNS = 40000   # thorough tier: libFuzzer runs per campaign of the coverage-guided stage (vf/fuzz.py)
 BUDGET = {
     "quick": {"examples": 1500, "workers": 8, "time_cap": 70},
     "thorough": {"examples": 10000, "workers": 14, "time_cap": 900},
